@@ -796,7 +796,26 @@ func (v *Protocol) WriteMessage(m *Message) (err error) {
 		return oe.Wrapf(err, "flush writer")
 	}
 
+	v.onMessageWriten(m)
+
 	return
+}
+
+// When a Set Chunk Size message is written, the following messages must be
+// chunked by the announced size, because the peer applies it on arrival.
+func (v *Protocol) onMessageWriten(m *Message) {
+	switch m.MessageType {
+	case MessageTypeSetChunkSize:
+		pkt := NewSetChunkSize()
+		if err := pkt.UnmarshalBinary(m.Payload); err != nil {
+			return
+		}
+
+		// Never use zero chunk size, the writer can not make progress.
+		if pkt.ChunkSize > 0 {
+			v.output.opt.chunkSize = pkt.ChunkSize
+		}
+	}
 }
 
 // Please read @doc rtmp_specification_1.0.pdf, @page 30, @section 4.1. Message Header
